@@ -1,0 +1,19 @@
+//go:build verif
+// +build verif
+
+package access
+
+import (
+	"com.tuntun.rangers/node/src/common"
+	"com.tuntun.rangers/node/src/core"
+	"com.tuntun.rangers/node/src/middleware/log"
+	"strconv"
+)
+
+// Verification hook H3b: a JoinedGroupStorage over an injected group chain.
+func VerifNewJoinedGroupStorage(gc core.GroupChain) *JoinedGroupStorage {
+	if logger == nil {
+		logger = log.GetLoggerByIndex(log.AccessLogConfig, strconv.Itoa(common.InstanceIndex))
+	}
+	return &JoinedGroupStorage{groupChain: gc}
+}
